@@ -588,4 +588,79 @@ example :
       [.feed 2, .call1 4, .call2 1, .call2 1, .feed 2, .call1 3, .call2 2, .call1 3, .call2 8, .call2 8]
     c.pending = [] ∧ c.buf = [] ∧ c.mid = [] ∧ c.out = [0x61, 0x20, 0x40, 0x5c] := by decide
 
+/-! ### The differential lines are a relation (round E, review C16-1)
+
+The `estepok` / `ustepok` / `espanok` / `uspanok` lines carry the call the real code made and
+the driver answers with `stepJudge` / `spanJudge` (`Model/Escape.lean`): the decidable instance
+of the contract for that call.  So an implementation that stops earlier than the model's step
+(or later) is accepted as long as it honours `StepOK`, which is all the chunk-independence
+theorems need. -/
+
+/-- **the judge never rejects a step that honours the contract**: the prefix part of the
+verdict is an instance of `StepOK f` (for the actual input and every probed continuation) -/
+theorem C16_judge_core_sound (f : Bytes → Bytes) (step : Step) (hs : StepOK f step)
+    (cap : Nat) (atEOF : Bool) (src : Bytes) :
+    stepJudgeCore f cap atEOF src (step cap atEOF src) = true := by
+  unfold stepJudgeCore
+  have h0 := hs cap atEOF src [] (fun _ => rfl)
+  simp only [Bool.and_eq_true, decide_eq_true_eq, List.all_eq_true, beq_iff_eq]
+  refine ⟨⟨h0.1, h0.2.1⟩, ?_⟩
+  intro rest hr
+  cases atEOF with
+  | true =>
+    simp only [if_true, List.mem_singleton] at hr
+    subst hr
+    exact h0.2.2
+  | false => exact (hs cap false src rest (by simp)).2.2
+
+/-- the model's own steps are accepted in full (error obligations included) on every call of
+the small scope; the general statement follows from `C16_judge_core_sound`,
+`C16_esc_progress`, `C16_esc_nil_consumes`, `C16_unesc_progress`, `C16_unesc_nil_consumes`,
+`C16_unesc_no_shortsrc_at_eof` -/
+example : ([0, 1, 2, 3, 4, 7].all fun cap => [true, false].all fun e =>
+    [[], [0x20], [0x61, 0x20], [bslash], [bslash, 0x32], [bslash, 0x32, 0x30], [0x61, bslash, 0x35, 0x63, 0x40]].all fun src =>
+      (stepJudge escape 3 false cap e src (escStep cap src)).isNone &&
+      (stepJudge unescape 1 true cap e src (unescStep cap e src)).isNone &&
+      (spanJudge escape false e src (escSpan src).1 (escSpan src).2).isNone &&
+      (spanJudge unescape true e src (unescSpan e src).1 (unescSpan e src).2).isNone) = true := by
+  decide +kernel
+
+/-- the judge is not vacuous: a step that emits the escape code but "forgets" to consume the
+byte, one that swallows a backslash whose code may still come, one that reports success with
+source left, and one that makes no progress although there is room are all rejected -/
+example :
+    stepJudge escape 3 false 8 true [0x20, 0x61] ⟨[bslash, 0x32, 0x30], 0, .shortDst⟩ = some "prefix" ∧
+    stepJudge unescape 1 true 8 false [0x61, bslash] ⟨[0x61, bslash], 2, .nil⟩ = some "prefix" ∧
+    stepJudge unescape 1 true 8 true [0x61, 0x62] ⟨[0x61], 1, .nil⟩ = some "nil-but-source-left" ∧
+    stepJudge escape 3 false 8 true [0x61] ⟨[], 0, .shortDst⟩ = some "no-progress" ∧
+    -- … while stopping early is fine
+    stepJudge escape 3 false 8 false [0x61, 0x62, 0x20] ⟨[0x61], 1, .shortDst⟩ = none := by
+  decide +kernel
+
+/-! ### The code tables at other offsets (round E, review C16-3)
+
+`escapeTable` / `unescapeTable` are probed on strings whose only item sits at offset 0.  The
+model treats an item the same wherever it stands; the facts `escapeOffsets` / `unescapeOffsets`
+say the real code does so behind six kinds of prefix (ordinary bytes, a previous escape, an
+incomplete escape), for all 256 bytes / all 65536 pairs. -/
+
+/-- escaping is byte-wise: it distributes over concatenation -/
+theorem C16_escape_append (p s : Bytes) : escape (p ++ s) = escape p ++ escape s := by
+  simp [escape, List.flatMap_append]
+
+/-- unescaping `\ab` behind each of the probed prefixes is unescaping the prefix, then `\ab` -/
+theorem C16_unescape_after_prefix (a b : UInt8) :
+    ∀ p ∈ ([[0x78], [0x78, 0x78], [bslash, 0x32, 0x30], [bslash], [bslash, 0x32], [0x61, bslash, 0x33, 0x61]] : List Bytes),
+      unescape (p ++ [bslash, a, b]) = unescape p ++ unescape [bslash, a, b] := by
+  intro p hp
+  simp only [List.mem_cons, List.not_mem_nil, or_false] at hp
+  rcases hp with rfl | rfl | rfl | rfl | rfl | rfl <;>
+    simp [unescape, bslash, shouldUnescape, unhex2, unhex]
+
+/-- regenerated facts (probes): the real `Escape` / `Unescape` agree with that on every byte /
+every pair behind every probed prefix -/
+theorem C16_gen_offset_tables :
+    Generated.C16.escapeOffsets = some [0, 0, 0, 0] ∧
+    Generated.C16.unescapeOffsets = some [0, 0, 0, 0, 0, 0] := by decide
+
 end XmppModel.Props.C16
